@@ -253,7 +253,7 @@ func c13Signature(c *vk.Case, name string, fields []refmodel.Field, literal stri
 		class := "assembly"
 		for i, f := range fields {
 			if i < len(perIn) && perIn[i] != f.Type.Canonical() {
-				class = gen.Skeleton(f.Type)
+				class = gen.Chain(f.Type) // array levels over S|bytes|string|Ts|Td
 				det["input"], det["input_got"], det["input_want"] = f.Name, perIn[i], f.Type.Canonical()
 				break
 			}
@@ -270,7 +270,8 @@ func c13Signature(c *vk.Case, name string, fields []refmodel.Field, literal stri
 		c.Obs("kat_vectors", 1)
 		if hex.EncodeToString(gotHash) != literal {
 			ok = false
-			c.Violate("hash-mismatch:known-answer:"+name, det, "SignatureHash(%s) = %x, want the published topic0 %s", wantSig, gotHash, literal)
+			det["known_answer"] = name
+			c.Violate("hash-mismatch:known-answer", det, "SignatureHash(%s) = %x, want the published topic0 %s", wantSig, gotHash, literal)
 		}
 		if hex.EncodeToString(wantHash) != literal {
 			c.Inconclusive("reference Keccak-256 disagrees with the literal for %s", wantSig)
@@ -540,7 +541,7 @@ func c13Run(c *vk.Case) {
 		c13Signature(c, gen.EventName(r), fa, "")
 		evals++
 		// (b) matching through Insert
-		ob := gen.ABIOpts{MaxDepth: r.Range(0, 3), MaxInputs: r.Range(1, 5), MaxLeaves: 60, DynLen: 3, NoBytesArray: true, Ks: []int{1, 2, 3, 4, 5, 6, 7, 8, 9, 11}}
+		ob := gen.ABIOpts{MaxDepth: r.Range(0, 3), MaxInputs: r.Range(1, 5), MaxLeaves: 60, DynLen: 3, Ks: []int{1, 2, 3, 4, 5, 6, 7, 8, 9, 10, 11, 12, 16}}
 		fb := gen.Inputs(r, ob)
 		nIdx := r.Intn(4)
 		if r.Chance(1, 12) {
